@@ -374,4 +374,11 @@ def readChunks : RState → List (List Byte) → List (Res (List Msg))
   | _, [] => []
   | st, c :: cs => let (st', r) := readPlain st c; r :: readChunks st' cs
 
+/-- `readChunks` with abandoned frames: `none` stands for "the caller gives the frame in progress up and
+    empties its buffer" - it keeps its other decoder variables, which is all the decoder asks of it -/
+def readChunksAbandon : RState → List (Option (List Byte)) → List (Res (List Msg))
+  | _, [] => []
+  | st, none :: cs => readChunksAbandon { st with buf := [] } cs
+  | st, some c :: cs => let (st', r) := readPlain st c; r :: readChunksAbandon st' cs
+
 end Rscp.Model
